@@ -145,6 +145,11 @@ def eval_expr(node: ast.AST, env: Dict[str, Any]) -> Any:
         left = eval_expr(node.left, env)
         for op, comp in zip(node.ops, node.comparators):
             right = eval_expr(comp, env)
+            if isinstance(op, (ast.Lt, ast.LtE, ast.Gt, ast.GtE)):
+                try:
+                    left < right  # noqa: B015 - probe: ordering between these values defined?
+                except TypeError as error:
+                    raise _Raised(f"TypeError: {error}")
             if isinstance(op, ast.Eq):
                 ok = left == right
             elif isinstance(op, ast.NotEq):
@@ -279,6 +284,11 @@ _PURE_BUILTINS["dict"] = dict
 _PURE_BUILTINS["sum"] = sum
 _PURE_BUILTINS["abs"] = abs
 _PURE_BUILTINS["repr"] = repr
+# pure standard-library functions the repository imports by name (never repository code)
+import urllib.parse as _up
+
+_PURE_BUILTINS["urlunsplit"] = _up.urlunsplit
+_PURE_BUILTINS["unquote"] = _up.unquote
 _PURE_METHODS = {"upper", "lower", "strip", "lstrip", "rstrip", "split", "rsplit", "startswith", "endswith", "decode", "encode", "partition", "rpartition", "replace", "get", "items", "keys", "values", "count", "index", "title", "join"}
 
 
@@ -340,7 +350,7 @@ def eval_function(func: ast.AST, env: Dict[str, Any], depth: int = 0, want_env: 
                 _bind(s.target, eval_expr(s.value, local), local)
             elif isinstance(s, ast.AugAssign) and isinstance(s.target, ast.Name) and isinstance(s.op, ast.Add):
                 local[s.target.id] = eval_expr(s.target, local) + eval_expr(s.value, local)
-            elif isinstance(s, ast.For) and not s.orelse:
+            elif isinstance(s, ast.For):
                 try:
                     for item in list(eval_expr(s.iter, local)):
                         _bind(s.target, item, local)
@@ -348,6 +358,7 @@ def eval_function(func: ast.AST, env: Dict[str, Any], depth: int = 0, want_env: 
                             block(s.body)
                         except _Cont:
                             continue
+                    block(s.orelse)
                 except _Brk:
                     pass
             elif isinstance(s, ast.Break):
